@@ -123,6 +123,13 @@ def loglike(ix, R, tag, site, name, thorough=False):
         if at is not None and at.head == 'tuple':
             v = at.args[0]
         cs = one(calls(fl, 'chisq_trans'), 'chisq_trans call')
+        from sa.helpers import pos_args
+        import types as _types
+        _pa, _kd = pos_args(fl, cs)            # chisq_trans(fit_params=.., data=.., datastd=..) is the positional call
+        if _kd:
+            raise AnalysisError('chisq_trans is called with keyword arguments %s this rule cannot place' % sorted(_kd))
+        cs_ev = cs
+        cs = _types.SimpleNamespace(args=_pa, guards=cs.guards, loops=cs.loops, node=cs.node)
         chi = fl.tab.atom('call', tuple(cs.args), extra=('fn:self.chisq_trans',))
         b = {'sigma': code(fl, 'self._observed.errorBar'), 'chi': chi}
         want = spec(fl, '-np.sum(log(sigma*sqrt(2*pi))) - chi/2', b)
@@ -331,7 +338,11 @@ def chisq(ix, R):
                 r_ = ix.resolve_name(f.module, nme.id)
             if r_ is base or unparse(nme) in ('Exception', 'BaseException'):
                 rets = [s for s in h.body if isinstance(s, ast.Return)]
-                if rets and unparse(rets[0].value) in ('np.nan', 'numpy.nan', "float('nan')", 'math.nan'):
+                rv_ = rets[0].value if rets else None
+                if isinstance(rv_, ast.Call) and isinstance(rv_.func, ast.Name) and rv_.func.id == 'float' and \
+                        len(rv_.args) == 1 and not rv_.keywords and not isinstance(rv_.args[0], ast.Constant):
+                    rv_ = rv_.args[0]               # float(np.nan) is np.nan
+                if rets and rv_ is not None and unparse(rv_) in ('np.nan', 'numpy.nan', "float('nan')", 'math.nan'):
                     good = True
                 else:
                     why.append('handler does not return NaN')
